@@ -45,7 +45,7 @@ RULE = ("library: (sample, partition incl. empty parts, merge order, operator, e
 REACH = ["treecollectionmodel:TreeArray.update", "treecollectionmodel:TreeArray.extend", "treecollectionmodel:TreeArray.__iadd__",
          "treecollectionmodel:TreeArray.__add__", "treecollectionmodel:SplitDistribution.update", "treecollectionmodel:TreeArray.add_tree",
          "treecollectionmodel:TreeArray.insert", "treecollectionmodel:TreeArray.validate_rooting"]
-MIN_EVENTS = {"merge-compared-with-serial": (300, 8000), "source-unchanged-checked": (500, 10000), "alignment-invariant-checked": (2000, 50000),
+MIN_EVENTS = {"merge-compared-with-serial": (300, 3000), "source-unchanged-checked": (500, 5000), "alignment-invariant-checked": (2000, 20000),
               "empty-after-nonempty-merge": (50, 1000), "sumtrees-parallel-run-compared": (20, 200),
               "sumtrees-idle-worker-arrived-after-nonempty": (3, 20), "sumtrees-idle-worker-arrived-first": (3, 20)}
 ASSUMPTIONS = ["the serial summary of the same trees is the baseline (its exactness is C05)",
